@@ -1,4 +1,4 @@
-import PeliteModel.Prim.Proto
+import PeliteModel.Driver.State
 import PeliteModel.Model.Pe
 /-! Driver handlers for the operation families that work on the current image. -/
 namespace Pelite.Driver
@@ -99,5 +99,17 @@ def bysec (img : Option Img) (fam : String) (a : List String) : String :=
       | some i => s!"ok {i}"
       | none => "none"
   | _ => "bad-op"
+
+def dispatchImage : Handler := fun st fam a =>
+  match fam, a with
+  | "from_bytes", [k] => some (fromBytesOp st.img k)
+  | "hdr", [k] => some (hdr st.img k)
+  | "hdrw", [k] => some (hdrw st.img k)
+  | "r2f", a | "f2r", a | "r2v", a | "v2r", a => some (addr st.img fam a)
+  | "slice", a => some (sliceOp st.img a)
+  | "read", a => some (readOp st.img a)
+  | "secbytes", a => some (secbytes st.img a)
+  | "byrva", a | "byname", a => some (bysec st.img fam a)
+  | _, _ => none
 
 end Pelite.Driver
